@@ -146,10 +146,13 @@ func vspecAckType(s message.Type) bool {
 
 // ---- locks (DESIGN 2.5): Lock requires the lock not to be held by this goroutine, Unlock requires it held;
 // every function must return with the locks it entered with.
+// The ghost clock (see service/verif_contracts.go) also records when a mutex was last acquired.
 //@ extern (*sync.Mutex).Lock
 //@   pure
 //@   flag lock acquire
 //@   flag yield
+//@   ensures[ghostdef-clock] gfield(0, "clock") == old(gfield(0, "clock"))+1 && gfield(m, "mlockedAt") == gfield(0, "clock")
+//@   modifies gfield(0, "clock"), gfield(m, "mlockedAt")
 //@ extern (*sync.Mutex).Unlock
 //@   pure
 //@   flag lock release
@@ -164,7 +167,7 @@ func vspecAckType(s message.Type) bool {
 //@   ensures[C13:unknown] !old(haskey(aq.emap, message.vspecPacketID(ifaceval(msg, *message.header).packetID))) || !vspecAckType(old(message.Type(ifaceval(msg, *message.header).mtypeflags[0]>>4))) ==> forall(0, int(aq.size), func(i int) bool { return aq.ring[i].State == old(aq.ring[i].State) && aq.ring[i].Ackbuf == old(aq.ring[i].Ackbuf) })
 //@   ensures[C13:known] old(haskey(aq.emap, message.vspecPacketID(ifaceval(msg, *message.header).packetID))) && vspecAckType(old(message.Type(ifaceval(msg, *message.header).mtypeflags[0]>>4))) ==> aq.ring[old(aq.emap[message.vspecPacketID(ifaceval(msg, *message.header).packetID)])].State == old(message.Type(ifaceval(msg, *message.header).mtypeflags[0]>>4)) && fresh(arr(aq.ring[old(aq.emap[message.vspecPacketID(ifaceval(msg, *message.header).packetID)])].Ackbuf))
 //@   ensures[C13:bufs] preservedarrays(aq.ring[0].Msgbuf)
-//@   modifies elems(aq.ring), aq.ping, heap("F.message.header.remlen"), heap("F.message.header.dirty"), heap("F.message.header.packetID"), message.gPacketID
+//@   modifies elems(aq.ring), aq.ping, heap("F.message.header.remlen"), heap("F.message.header.dirty"), heap("F.message.header.packetID"), message.gPacketID, heap("GF.clock"), heap("GF.mlockedAt")
 
 // Wait: registers a request (PUBLISH QoS>0, SUBSCRIBE, UNSUBSCRIBE by packet id; PINGREQ in the ping slot).
 //@ func (*Ackqueue).Wait
@@ -181,7 +184,7 @@ func vspecAckType(s message.Type) bool {
 //@   ensures[C13:entry] aq.count == old(aq.count)+1 ==> vdefView(aq, old(aq.count)).State == message.RESERVED && vdefView(aq, old(aq.count)).OnComplete == onComplete && int(vdefView(aq, old(aq.count)).Pktid) == old(message.vspecPacketID(ifaceval(msg, *message.header).packetID))
 //@        && fresh(arr(vdefView(aq, old(aq.count)).Msgbuf))
 //@   ensures[C13:bufs] preservedarrays(aq.ring[0].Msgbuf)
-//@   modifies aq.size, aq.mask, aq.ring, aq.head, aq.tail, aq.count, aq.emap, aq.ping, elems(aq.ring), mapof(aq.emap), heap("F.message.header.remlen"), heap("F.message.header.dirty"), heap("F.message.header.packetID"), message.gPacketID
+//@   modifies aq.size, aq.mask, aq.ring, aq.head, aq.tail, aq.count, aq.emap, aq.ping, elems(aq.ring), mapof(aq.emap), heap("F.message.header.remlen"), heap("F.message.header.dirty"), heap("F.message.header.packetID"), message.gPacketID, heap("GF.clock"), heap("GF.mlockedAt")
 
 // Acked: hands back the answered ping (if any) followed by the maximal prefix of the FIFO whose entries have reached
 // a terminal state, and removes exactly those. P = 1 if a ping answer is returned first, else 0.
@@ -209,4 +212,4 @@ func vspecAckType(s message.Type) bool {
 //@   ensures[C13:rest] forall(0, int(aq.count), func(j int) bool { return vdefView(aq, j) == old(vdefView(aq, len(result)-vdefP(aq)+j)) })
 //@   ensures[C13:ping] old(vdefP(aq)) == 1 ==> result[0] == old(aq.ping) && aq.ping.State == message.RESERVED
 //@   ensures[C13:bufs] preservedarrays(aq.ring[0].Msgbuf)
-//@   modifies aq.head, aq.count, aq.ackdone, aq.ping, elems(aq.ring), capelems(aq.ackdone), mapof(aq.emap)
+//@   modifies aq.head, aq.count, aq.ackdone, aq.ping, elems(aq.ring), capelems(aq.ackdone), mapof(aq.emap), heap("GF.clock"), heap("GF.mlockedAt")
